@@ -399,8 +399,8 @@ class Ref:
                     n = self.implicit_key_bits(dct, internal)
                     cx.length_keys[dct["key_id"]] = n
                     cx.implicit_keys = getattr(cx, "implicit_keys", set()) | {dct["key_id"]}
-                if not isinstance(n, int) or isinstance(n, bool) or n < 0:
-                    raise Unrepresentable("bad-length-key", repr(n))
+                if not isinstance(n, int) or isinstance(n, bool) or n < 0 or n > 65536:
+                    raise Unrepresentable("bad-length-key", repr(n)[:40])
                 if n == 0:
                     raise Skip("zero-length PARAM-LENGTH-INFO object")
                 mask = None
